@@ -30,7 +30,7 @@ ASSUMPTIONS = [
 ]
 BUDGET = {
     "quick": {"examples": 600, "workers": 8, "time_cap": 70},
-    "thorough": {"examples": 25000, "workers": 14, "time_cap": 1500},
+    "thorough": {"examples": 25000, "workers": 14, "time_cap": 900},
 }
 RESERVED = set(" &=%+#?/:;@$,!'()*[]")
 
